@@ -18,3 +18,11 @@ Print Assumptions C07_refuted_pinned.
 Example C07_nonvacuous : exits true = [XNormal; XNormal] /\ sites_ok [] one_call_lifetime.
 Proof. split; [exact fresh_count_fixed_same_case|]. cbn. auto. Qed.
 Print Assumptions C07_nonvacuous.
+
+(* the same statement for the configuration FOUND IN THE SOURCE NOW ([src_reset] is computed from the text of
+   `will_execute`, regenerated on every run): it checks only while will_execute zeroes the counter before installing *)
+From Inj Require Import SrcTieLife.
+Theorem C07_fresh_count_as_in_source : forall c lifo k s ops ctr1 ctr2, sites_ok [] ops ->
+  same_report (lifetime c src_reset lifo k s ctr1 ops) (lifetime c src_reset lifo k s ctr2 ops).
+Proof. exact fresh_count. Qed.
+Print Assumptions C07_fresh_count_as_in_source.
